@@ -39,6 +39,12 @@ def run(ctx):
             traces.append({"id": "p%d.chain" % i, "events": evs[1:]})
             for k in kinds:
                 chain_kinds[k] = chain_kinds.get(k, 0) + 1
+    # scale: one project with more than 256 modules / patterns, 100+ links on one module, a 16+ track pattern of hundreds of lines
+    for k in range(1 if q else 4):
+        lp = gen.large_project(rnd, spec)
+        ev = fmt.roundtrip_event(lp, spec, w=False)
+        traces.append({"id": "large%d" % k, "events": [ev]})
+        ctx.count_case(("large", k, len(ev["chunks"])), nontrivial=True)
     cans = []
     for k, tr in enumerate(traces[:3]):
         c = {"id": "canary%d" % k, "events": [fmt.corrupt_first_int(tr["events"][0])]}
